@@ -76,21 +76,25 @@ def _work(items):
 
 def run(ctx):
     cfgs = ["MC_Query_c15q.cfg", "MC_Query_q2.cfg"] if ctx.quick else ["MC_Query_c15t.cfg", "MC_Query_t2.cfg"]
-    corpus = querycorpus.tlc_corpus(ctx, "MC_Query", cfgs)
-    if ctx.quick:
-        # quick tier: every collector / keyword case, every 4th of the others (seeded); thorough replays all
-        corpus = [(d, [c for k, c in enumerate(cs) if "COLLECTOR" in c["ty"] or "KEYWORD" in c["ty"]
-                       or (k + len(d) + ctx.seed) % 4 == 0]) for d, cs in corpus]
-    items = [(d, cs, querycorpus.variant_of(d, ctx.seed, ctx.quick)) for d, cs in corpus]
     tot = {"cases": 0, "runs": 0, "nontrivial": 0, "coll_agree": 0, "coll_differ": 0, "coll_opt_runs": 0, "coll_sample": None}
-    for out, stats in querycorpus.pmap(_work, items, chunk=8):
-        for k in tot:
-            if k == "coll_sample":
-                tot[k] = tot[k] or stats[k]
-            else:
-                tot[k] += stats[k]
-        for sig, desc, rp in out:
-            ctx.violation(sig, desc, rp)
+    ndocs = 0
+    # memory-bounded: the corpora of the thorough tier do not fit in memory at once (an earlier version was OOM-killed at 33 GB)
+    for corpus in querycorpus.stream_corpus(ctx, "MC_Query", cfgs):
+        if ctx.quick:
+            # quick tier: every collector / keyword case, every 4th of the others (seeded); thorough replays all
+            corpus = [(d, [c for k, c in enumerate(cs) if "COLLECTOR" in c["ty"] or "KEYWORD" in c["ty"]
+                           or (k + len(d) + ctx.seed) % 4 == 0]) for d, cs in corpus]
+        ndocs += len(corpus)
+        items = [(d, cs, querycorpus.variant_of(d, ctx.seed, ctx.quick)) for d, cs in corpus]
+        for out, stats in querycorpus.pmap(_work, items, chunk=8):
+            for k in tot:
+                if k == "coll_sample":
+                    tot[k] = tot[k] or stats[k]
+                else:
+                    tot[k] += stats[k]
+            for sig, desc, rp in out:
+                ctx.violation(sig, desc, rp)
+        del items, corpus
     editobs.run_histories(ctx, {"set_opt"}, "C09", ["MC_Edit_q.cfg"] if ctx.quick else ["MC_Edit_t.cfg"])
     editobs.random_histories(ctx, "C09", 600 if ctx.quick else 6000, 8)
     ctx.coverage["creation_histories"] = ctx.coverage.pop("evaluations")
@@ -101,7 +105,7 @@ def run(ctx):
         "collector_model_agreement": {"agree": tot["coll_agree"], "differ": tot["coll_differ"], "optional_mode_runs": tot["coll_opt_runs"],
                                       "first_difference": tot["coll_sample"],
                                       "note": "YQuery.CollectorStep (+, -, & over scalars) compared with get_nodes(); informational drift counter, not a C09 verdict"},
-        "purity_runs": tot["runs"], "purity_cases": tot["cases"], "documents": len(corpus),
+        "purity_runs": tot["runs"], "purity_cases": tot["cases"], "documents": ndocs,
         "rule": "purity: every (document, path) case of the MC_Query corpora incl. collectors x {required, exists, optional-on-existing}, document snapshotted before/after; creation: every MC_Edit history ending in a creating set",
         "traces_validated_against_impl": tot["runs"] + ctx.coverage["creation_histories"], "exhaustive": True,
     })
